@@ -22,7 +22,7 @@ THEOREM_OF = {
     "no_panic": "C18_exactly_once (at most one completion per channel: no send on / close of a closed channel)",
     "bounded_by_timeout": "never blocking beyond its time-out (runtime; explored, not proved)",
     "canceled_never_delivered": "C18_canceled_never_delivered",
-    "builder": "C18_build_round / C18_canceled_before_build (buildWithLimit round: fetched entries only, priorities, consecutive ids, cancelled skipped)",
+    "builder": "C18_build_round / C18_round_nothing_lost / C18_canceled_before_build (buildWithLimit round: fetched entries only, priorities, consecutive ids, cancelled skipped, nothing popped is lost, nothing left behind with an unbounded limit)",
     "harness": "harness",
 }
 
@@ -134,7 +134,7 @@ def main(tier, replay):
     classes = {k[6:]: n for k, n in stats.items() if k.startswith("class:")}
     cov.update(evaluations=stats.get("calls", 0) + stats.get("scenarios", 0),
                distinct_nontrivial=stats.get("distinct", 0),
-               rule="seeded scenarios of 16 classes (plain / forward / streamfail / cancel / close / staleepoch / multiconn / rebreak / sendpanic / staleasync / builder / recvpanic / failpanic / twopools / nonbatch / asyncclose): 1..72 concurrent callers, "
+               rule="seeded scenarios of 17 classes (plain / forward / streamfail / cancel / close / staleepoch / multiconn / rebreak / sendpanic / staleasync / builder / recvpanic / failpanic / twopools / nonbatch / asyncclose / limitbatch; MaxConcurrencyRequestLimit in {default,1,2,3,..} incl. whole batches of mixed priorities / cancelled entries built at once through the repo failpoint mockBatchClientSendDelay, second Take rounds): 1..72 concurrent callers, "
                     "4 request types, priorities 0..16, 1..5 forwarded hosts, 1..4 connections, concurrency limit, batch policies, server side delay / reorder / "
                     "duplicate / unknown-id / never-answered responses, stream kills, server restarts, injected Send/Recv/stream-creation failures, cancellation, "
                     "time-outs, client / address close during traffic, sync calls with 30 s time-outs and SendRequestAsync calls without deadline (must complete in the drain phase), "
